@@ -141,6 +141,12 @@ def spec_verdict(o, a, s):
             return "different columns"
         ra, rs = rows(a, True), rows(s2, True)
         n = min(nlim, len(rs))
+        if loose:
+            # multiplicities are open (a triple in two listed graphs, an interval predicate): between
+            # min(n, distinct qualifying rows) and min(n, qualifying occurrences) rows
+            if len(ra) > n or len(ra) < min(nlim, len(set(rs))) or not set(ra) <= set(rs):
+                return f"ORDER BY ... LIMIT {nlim} returns {len(ra)} rows although between {len(set(rs))} and {len(rs)} qualify"
+            return None
         if len(ra) != n:
             return f"ORDER BY ... LIMIT {nlim} returns {len(ra)} rows although {len(rs)} rows qualify"
         if not (set(ra) <= set(rs) if loose else submulti(ra, rs)):
